@@ -24,6 +24,7 @@
 package csim
 
 import (
+	"encoding/json"
 	"container/heap"
 	"fmt"
 	"math/rand"
@@ -354,8 +355,25 @@ func (s *sim) send(from *node, fromPath string, to vivid.ActorRef, m vivid.Messa
 			}
 			return
 		}
+		if TraceFn != nil {
+			TraceFn(fmt.Sprintf("+%dms n%d(inc %d) -> n%d(inc %d): %T %s", s.nowMs(), srcIdx, from.inc, dst, cur.inc, inst, traceMsg(inst)))
+		}
 		s.arrive(cur, rp, inst, ref{sa, sp})
 	})
+}
+
+// TraceFn, when set (debugging a replay), receives one line per delivered inter-node message.
+var TraceFn func(string)
+
+func traceMsg(m any) string {
+	b, err := json.Marshal(m)
+	if err != nil {
+		return ""
+	}
+	if len(b) > 6000 {
+		b = b[:6000]
+	}
+	return string(b)
 }
 
 func (s *sim) localDeliver(n *node, fromPath, toPath string, m vivid.Message) {
